@@ -34,6 +34,7 @@ pub fn list() -> Vec<(&'static str, super::Scenario)> {
         ("repoll", repoll),
         ("nested_wait", nested_wait),
         ("drop_plain", drop_plain),
+        ("claim_others", claim_others),
     ]
 }
 
@@ -2421,5 +2422,60 @@ fn drop_plain(cfg: &Cfg) {
     }
     rt::quiesce();
     check_no_unplanned_panics();
+    shutdown();
+}
+
+/// C06 / C10 / C03: a sync caller that is handed its queue must leave the *other* queues' schedule entries alone.  One pool
+/// thread first polls B's gated future operation (B suspends), then is pinned by another object's blocking job.  `stale`=1: a
+/// desync + sync on A leave a stale schedule entry for A.  B's event fires with no free thread (B waits in the schedule).  A is
+/// held by a thread inside sync, a desync is queued on A and a second thread blocks in sync(A); the holder lets go, A goes
+/// back into the schedule and the blocked caller claims it.  Then the pool thread is released: B must be polled again.
+/// (`bfirst`=1: B's event fires only after A's first entry was consumed, so that B's entry is the oldest one)
+fn claim_others(cfg: &Cfg) {
+    let pool = cfg.pool();
+    setup(pool);
+    let w = World::new();
+    w.prelude(cfg);
+    let a = w.raw();
+    let b = w.raw();
+    let gb = Gate::new();
+    let (bg_pin, bg_a) = (BGate::new(), BGate::new());
+    w.future_desync(&b, "FD-B", Body::gated(&gb)).detach();
+    w.desync(&b, "M-B", Body::plain());
+    rt::quiesce();
+    let mut pins = vec![];
+    for i in 0..pool {
+        let p = w.raw();
+        w.desync(&p, &format!("PIN{}", i), Body::blocking(&bg_pin));
+        pins.push(p);
+    }
+    rt::quiesce();
+    if cfg.opt("stale", 1) == 1 {
+        w.desync(&a, "D1", Body::plain());
+        w.sync(&a, "S1", Body::plain());
+    }
+    gb.open();
+    rt::quiesce();
+    let holder = {
+        let (w1, a1, bg) = (w.clone(), a.clone(), bg_a.clone());
+        spawn(move || { w1.sync(&a1, "HOLD-A", Body::blocking(&bg)); })
+    };
+    rt::quiesce();
+    w.desync(&a, "D2", Body::plain());
+    let waiter = {
+        let (w1, a1) = (w.clone(), a.clone());
+        spawn(move || { w1.sync(&a1, "S2", Body::plain()); })
+    };
+    rt::quiesce();
+    bg_a.open();
+    join(holder, "holder");
+    join(waiter, "waiter");
+    bg_pin.open();
+    let mut objs: Vec<&Obj> = vec![&a, &b];
+    objs.extend(pins.iter());
+    finish(&w, &objs, pool);
+    if gb.polls() < 2 {
+        rt::violation("WAKE-LOST the suspended operation on B was woken but never polled again".into());
+    }
     shutdown();
 }
